@@ -20,7 +20,7 @@ CASE_TIMEOUT = 30
 RULE = (
     "formula F over leaves Ev0..Ev4 drawn recursively (and/or nodes with 2-3 children, depth<=3, 2-5 leaves, distinct leaves) "
     "rendered fully parenthesised as `match F` (leaves = distinct event names, or one event name with distinct parameter values, or `$r_i.Finished()` of flows started earlier) / `await F` / `when F [or when G]` (await/when leaves are flows f_i := match Ev_i(), or actions X_iAction() finished by their ActionFinished event, or a mix); optionally the statement sits behind `match Go()` and 0-4 events arrive before it becomes active (they must not count; a flow finished early can never satisfy its leaf); event sequence of <=10 events drawn from the "
-    "leaf events (with repetition) and 2 irrelevant events; plus enumeration of ALL permutations of the leaf events for every "
+    "leaf events (with repetition) and 2 irrelevant events; in a third of the cases the statement sits in `while True` and the sequence goes on over several activations (only events since the current activation count); in a third of the await/when cases over flows the member flows can fail (event Fail_i aborts f_i: it never delivers Finished; when no running member can complete the group the case stops); plus enumeration of ALL permutations of the leaf events for every "
     "formula shape with <=4 leaves (x 3 forms). Non-trivial = formula uses both operators or has depth>=2; distinct by "
     "(form, formula, sequence)."
 )
@@ -154,7 +154,20 @@ def _case(draw):
         leaf = draw(st.sampled_from(["flow", "action", "mixed"]))
     # events that arrive BEFORE the group statement becomes active (it sits behind `match Go()`): they must not count
     pre = draw(st.lists(st.sampled_from(alphabet), max_size=4)) if draw(st.booleans()) else None
-    return {"form": form, "f": f, "g": g, "seq": seq[:14], "leaf": leaf, "pre": pre}
+    case = {"form": form, "f": f, "g": g, "seq": seq[:14], "leaf": leaf, "pre": pre}
+    # the statement sits in `while True`: every completion re-activates it and only events since THAT activation count
+    if form != "matchref" and draw(st.integers(0, 2)) == 0:
+        case["loop"] = True
+        more = draw(st.lists(st.sampled_from(alphabet), min_size=1, max_size=8))
+        case["seq"] = (case["seq"] + more + list(draw(st.permutations(list(range(n))))))[:24]
+    # member flows may fail (event Fail_i, written 100+i): a failed flow never delivers its Finished event
+    if form in ("await", "when") and leaf == "flow" and draw(st.integers(0, 2)) == 0:
+        case["fail"] = True
+        nfl = max(leaves(f) + (leaves(g) if g else [])) + 1
+        fails = draw(st.lists(st.integers(0, nfl - 1), min_size=1, max_size=2))
+        for x in fails:
+            case["seq"].insert(draw(st.integers(0, min(len(case["seq"]), 4))), 100 + x)
+    return case
 
 
 def strategy(tier):
@@ -198,13 +211,17 @@ def program(case):
     if form not in ("match", "matchp"):
         n = max(leaves(f) + (leaves(g) if g else [])) + 1
         for i in range(n):
-            lines += [f"flow f{i}", f"  match Ev{i}()", ""]
+            if case.get("fail"):
+                lines += [f"flow f{i}", f"  when Ev{i}()", "    pass", f"  or when Fail{i}()", "    abort", ""]
+            else:
+                lines += [f"flow f{i}", f"  match Ev{i}()", ""]
     lines.append("flow main")
     if form == "matchref":
         for i in sorted(set(leaves(f))):
             lines.append(f"  start f{i} as $r{i}")
     if case.get("pre") is not None:
         lines.append("  match Go()")
+    body_at = len(lines)
     if form == "match":
         lines += [f"  match {render(f, ev)}", "  send Done()"]
     elif form == "matchp":
@@ -217,6 +234,8 @@ def program(case):
         lines += [f"  when {render(f, fl)}", "    send Done()"]
         if g is not None:
             lines += [f"  or when {render(g, fl)}", "    send Done2()"]
+    if case.get("loop"):
+        lines[body_at:] = ["  while True"] + ["  " + x for x in lines[body_at:]]
     lines += ["  match Never()", ""]
     return "\n".join(lines)
 
@@ -245,6 +264,7 @@ def prop(case):
             return smh.ev("Ev", v=e)
         return smh.ev(f"Ev{e}")
 
+    failed_out = False
     dead = set()  # matchref: flows that finished before the statement became active can never satisfy their leaf
     if case.get("pre") is not None:
         for e in case["pre"]:
@@ -261,13 +281,24 @@ def prop(case):
             t = e0["type"]
             if t.startswith("StartX") and t.endswith("Action"):
                 uids[int(t[6:-6])] = e0["action_uid"]
+    activation = 0
     for idx, e in enumerate(seq):
-        if e < 90 and _is_action_leaf(case, e) and e not in seen and e in uids:
+        if e >= 100:
+            event = smh.ev(f"Fail{e - 100}")
+        elif e < 90 and _is_action_leaf(case, e) and e not in seen and e in uids:
             event = smh.ev(f"X{e}ActionFinished", action_uid=uids[e], is_success=True)
         else:
             event = mk(e)
-        out = smh.types(smh.feed(state, event))
-        if e not in dead:
+        out_events = smh.feed(state, event)
+        for e0 in out_events:
+            t = e0["type"]
+            if t.startswith("StartX") and t.endswith("Action"):
+                uids[int(t[6:-6])] = e0["action_uid"]
+        out = smh.types(out_events)
+        if e >= 100:
+            if e - 100 not in seen:
+                dead.add(e - 100)
+        elif e not in dead:
             seen.add(e)
         markers = [t for t in out if t in ("Done", "Done2")]
         if exp_at is None:
@@ -276,7 +307,16 @@ def prop(case):
             if ok_f or ok_g:
                 exp_at = idx
                 exp_markers = {"Done"} if ok_f and not ok_g else {"Done2"} if ok_g and not ok_f else {"Done", "Done2"}
-        desc = f"{form} F={render(f, str)}" + (f" G={render(g, str)}" if g else "") + (f" pre={case['pre']}" if case.get("pre") is not None else "") + f" seq={seq}"
+        desc = f"{form} F={render(f, str)}" + (f" G={render(g, str)}" if g else "") + (f" pre={case['pre']}" if case.get("pre") is not None else "") + (" in `while True`" if case.get("loop") else "") + (" (100+i = flow f_i fails)" if case.get("fail") else "") + f" seq={seq}"
+        if case.get("loop") and activation:
+            desc += f" [activation #{activation + 1}: events since it became active {sorted(seen)}]"
+        if case.get("fail") and exp_at is None and not markers:
+            alive = set(range(100)) - dead
+            if not evaluate(f, alive) and not (g is not None and evaluate(g, alive)):
+                # no member flow that is still running can complete the group: the statement fails (its flow is aborted);
+                # what follows is outside the property
+                failed_out = True
+                break
         if markers:
             if done_at is not None:
                 raise Violation(f"{form}-fired-twice", f"{desc}: marker again at step {idx} (first at {done_at})")
@@ -285,14 +325,22 @@ def prop(case):
             if len(markers) != 1 or markers[0] not in exp_markers:
                 raise Violation(f"{form}-wrong-marker", f"{desc}: {markers} at step {idx}, expected one of {sorted(exp_markers)}")
             done_at = idx
+            if case.get("loop"):
+                # the statement is active again: only events from now on count
+                activation += 1
+                seen, dead, done_at, exp_at, exp_markers = set(), set(), None, None, None
         elif exp_at == idx:
             raise Violation(f"{form}-not-fired", f"{desc}: formula satisfied at step {idx} by {sorted(seen)} but no marker")
     o = ops(f) | (ops(g) if g else set())
     d = max(fdepth(f), fdepth(g) if g else 0)
     nt = len(o) == 2 or d >= 2
-    labels = [form, "leaf-" + case.get("leaf", "flow"), f"depth{d}", "both-ops" if len(o) == 2 else "one-op", "completed" if exp_at is not None else "never-true"]
+    labels = [form, "leaf-" + case.get("leaf", "flow"), f"depth{d}", "both-ops" if len(o) == 2 else "one-op", "completed" if exp_at is not None or activation else "never-true"]
     if g:
         labels.append("two-cases")
+    if case.get("loop"):
+        labels.append(f"re-activated-{min(activation, 3)}x")
+    if case.get("fail"):
+        labels.append("member-flow-fails" + ("+group-fails" if failed_out else ""))
     if case.get("pre") is not None:
         labels.append("gated" + ("+early-events" if case["pre"] else ""))
     if any(e >= 90 for e in seq):
